@@ -18,7 +18,7 @@
     No proofs here (NullRunsProofs.v). *)
 From Coq Require Import List NArith Bool Arith.
 Import ListNotations.
-Open Scope N_scope.
+Local Open Scope N_scope.
 
 (** a run: (is_null, start, end) = rows [start, end) *)
 Definition run := (bool * N * N)%type.
